@@ -403,6 +403,10 @@ CLAIMS["C10"]["text"] += (" PartApi.tla models the partition API as a machine: T
 CLAIMS["C10"]["technique"] = CLAIMS["C10"].get("technique", "") and (CLAIMS["C10"]["technique"] + "; TLC-enumerated call histories of the partition API replayed on the implementation")
 CLAIMS["C01"]["text"] += " The sweep settings are the union of what the current and the pinned reference build find."
 
+CLAIMS["C07"]["text"] += (" NifObj.tla models a NifFile object as a container: TLC enumerates every history of load / create / add node / "
+                          "assign / CopyFrom / clear / save calls on one object with a donor; at every save a fresh object built with the "
+                          "content the machine assigns must write the same bytes, and the written file is judged by WellFormedViol.")
+
 def main():
     props = [json.loads(l) for l in open(os.path.join(ROOT, "properties.jsonl"))]
     commits = subprocess.run(["git", "-C", "/repo", "log", "--format=%H %s", "32497ec..HEAD"], stdout=subprocess.PIPE).stdout.decode().splitlines()
